@@ -814,6 +814,13 @@ func runFrame(fr *frame) {
 			ee := r.(engineErr)
 			if !strings.Contains(ee.msg, " [in ") {
 				ee.msg += " [in " + fr.fn.String() + "]"
+				if os.Getenv("GOSYM_STACK") != "" {
+					for f := fr.caller; f != nil; f = f.caller {
+						if f.fn != nil {
+							ee.msg += " <- " + f.fn.String()
+						}
+					}
+				}
 			}
 			panic(ee)
 		case pathAbort, violationStop, killGoroutine:
